@@ -35,7 +35,11 @@ class Channel:
 
     def __init__(self, tape, name, viol, world):
         self.tape, self.name, self.viol, self.world = tape, name, viol, world
-        self.ta = self.rr = self.ia = False
+        # the handshake is edge based: after a master restart the terminal's toggle bits
+        # may be at any level, with the last chunk of the old session still in the image
+        self.ta = bool(tape.draw(f"c28/{name}/ta0", 2))
+        self.rr = bool(tape.draw(f"c28/{name}/rr0", 2))
+        self.ia = False
         self.last_tr = self.last_ra = False
         self.pending = None       # (chunk, cycles left) being accepted
         self.accepted = bytearray()
@@ -43,7 +47,7 @@ class Channel:
         self.announced = bytearray()
         self.chunks_announced = 0
         self.wait_ack = False
-        self.in_string = b""
+        self.in_string = b"OLD-SESSION" if tape.draw(f"c28/{name}/stale", 2) else b""
         self.inited = False
         self.active = True
         self.maxdelay = tape.draw(f"c28/{name}/maxdelay", 5)
